@@ -1288,6 +1288,10 @@ func (t Transform) String() string {
 			transformStmts.WriteString(stmt.Fn.String())
 		}
 	}
+	if t.Next != nil {
+		transformStmts.WriteString(" |> ")
+		transformStmts.WriteString(t.Next.String())
+	}
 	return transformStmts.String()
 }
 
